@@ -8,34 +8,7 @@ import (
 	sdk "github.com/cosmos/cosmos-sdk/types"
 )
 
-type BtcBlock struct{ Hash []byte }
-type BtcSim struct {
-	Blocks map[uint64]*BtcBlock
-	tip    uint64
-}
-
-func newBtcSim(w *World) *BtcSim {
-	return &BtcSim{Blocks: map[uint64]*BtcBlock{w.Cfg.BtcStartTip: {Hash: sha([]byte("btc-genesis"))}}, tip: w.Cfg.BtcStartTip}
-}
-func (b *BtcSim) Tip() uint64                    { return b.tip }
-func (b *BtcSim) addressPayable(addr string) bool { return true }
-
-type relModel struct{}
-
-func newRelModel(w *World) *relModel            { return &relModel{} }
-func (r *relModel) onboarding(s *Snap) []string { return nil }
-func (r *relModel) offboarding(s *Snap) []string { return nil }
-
-type btcModel struct{}
-
-func newBtcModel(w *World) *btcModel { return &btcModel{} }
-
 func sdkAccFromBech32(s string) ([]byte, error) { return sdk.AccAddressFromBech32(s) }
-
-func (w *World) oracleRelayer(bi *BlockInfo)   {}
-func (w *World) oracleBitcoin(bi *BlockInfo)   {}
-func (w *World) oracleAdmission(bi *BlockInfo) {}
-func (w *World) oracleBtcHashes(bi *BlockInfo) {}
 
 func (w *World) injectJunk(n *Node, kind string)                              {}
 func (w *World) checkHonestProposalShape(n *Node, txs [][]byte, faulted bool) {}
@@ -53,14 +26,11 @@ func (w *World) reexecute(n *Node, b *DecidedBlock)                             
 var byzMutations = []string{"drop-first"}
 var junkKinds = []string{"stale"}
 
-func (w *World) applyRelayerStep(st Step) (string, bool) { return "", false }
 func (w *World) applyProbeStep(st Step) (string, bool) {
 	if st.K == "probe.drained" {
 		return "ok", true
 	}
 	return "", false
 }
-func (w *World) genRelayerStep(kind string, r *Rand, sub uint64) (Step, bool) { return Step{}, false }
-func (w *World) genProbeStep(kind string, r *Rand, sub uint64) (Step, bool)   { return Step{}, false }
-func (w *World) finalRelayerChecks()                                          {}
-func selftest(args []string) int                                              { return 0 }
+func (w *World) genProbeStep(kind string, r *Rand, sub uint64) (Step, bool) { return Step{}, false }
+func selftest(args []string) int                                            { return 0 }
